@@ -553,6 +553,14 @@ def render_lut(L, use_dec=False):
         qlit(L.visc), body))
 
 
+def render_lut_term(L):
+    body = "; ".join("(%s,%s,%s)" % (qlit(r[0]), qlit(r[1]), qlit(r[2]))
+                     for r in L.nodes)
+    return "mkLut %s %s %s %s [%s]" % (
+        "Area" if L.feat == "area_um" else "Volume", qlit(L.cw), qlit(L.fr),
+        qlit(L.visc), body)
+
+
 def candidate_triangles(L, cw, fr, px, med, x, d):
     """The value of the oracle [tri] restricted to what the events can see:
     the simplex qhull finds for every event, its neighbours, and all
@@ -698,7 +706,10 @@ def correspondence(run):
         groups.append((L, True, [gen_corr_case(rng, L, n=3, builtin=True)
                                  for _ in range(4 if run.thorough else 3)]))
 
+    # small (generated) tables travel with their cases, several tables per
+    # coqc run; a built-in table is defined once in the header of its run
     jobs = []
+    small_r, small_i = [], []
     for gi, (L, use_dec, cases) in enumerate(groups):
         rendered, infos = [], []
         for case, kinds in cases:
@@ -706,20 +717,28 @@ def correspondence(run):
                 L, case["cw"], case["fr"], case["px"], case["medium"],
                 case["x"], case["d"]) if case["x"] else ([], [], [], [])
             rendered.append(render_case(L, case, tris))
-            infos.append((case, kinds, dist, cond))
-        jobs.append((gi, HEADER + render_lut(L, use_dec), rendered, infos, L))
+            infos.append((case, kinds, dist, cond, L))
+        if len(L.nodes) <= 100:
+            lt = render_lut_term(L)
+            small_r += ["(%s,\n %s)" % (lt, r) for r in rendered]
+            small_i += infos
+        else:
+            jobs.append(("c05_g%d" % gi, HEADER + render_lut(L, use_dec),
+                         "run_case lut0", rendered, infos, 8))
+    if small_r:
+        jobs.append(("c05_s", HEADER, "(fun lc => run_case (fst lc) (snd lc))",
+                     small_r, small_i, 12))
 
     def work(job):
-        gi, hdr, rendered, infos, L = job
-        return common.coq_map(run.scratch, "c05_g%d" % gi, hdr,
-                              "run_case lut0", rendered, shard=8,
-                              timeout=1200)
+        name, hdr, fn, rendered, infos, shard = job
+        return common.coq_map(run.scratch, name, hdr, fn, rendered,
+                              shard=shard, timeout=1200)
 
-    with ThreadPoolExecutor(max_workers=common.NCPU) as ex:
+    with ThreadPoolExecutor(max_workers=4) as ex:
         results = list(ex.map(work, jobs))
     for job, res in zip(jobs, results):
-        gi, hdr, rendered, infos, L = job
-        for (case, kinds, dist, cond), flat in zip(infos, res):
+        infos = job[4]
+        for (case, kinds, dist, cond, L), flat in zip(infos, res):
             model = decode_model(flat)
             impl = run_impl(case, L)
             nontrivial = (not isinstance(impl, str)) and any(
